@@ -31,9 +31,15 @@ func (c *DnsController) backgroundRefresh(cacheKey string, dnsMessage *dnsmessag
 
 	// Ensure refreshing flag is cleared even if refresh fails
 	// This prevents permanent deadlock if background refresh fails
+	//
+	// Load the entry directly: LookupDnsRespCache evicts expired entries, and
+	// the entry being refreshed is expired by definition. After a failed
+	// refresh it would therefore throw away the stale answer that is still
+	// inside the stale window (instead of clearing its flag so that the next
+	// lookup can retry). LookupDnsRespCache_ evicts it once the window is over.
 	defer func() {
-		if cache := c.LookupDnsRespCache(cacheKey, false); cache != nil {
-			if cache.IsRefreshing() {
+		if val, ok := c.dnsCache.Load(cacheKey); ok {
+			if cache, ok := val.(*DnsCache); ok && cache.IsRefreshing() {
 				cache.MarkRefreshed()
 			}
 		}
